@@ -437,8 +437,8 @@ def c09(tier, seed):
             late[str(3 * N + 1)] = [op("fatalf", site=1)]
             pats["fail_after_skips"] = ({"keyed": True, "cases": late, "default": [draw(g("Bool"), "d")]}, None)
         for pn, (prop, _) in pats.items():
-            for files in ("none", "passing", "mixed"):
-                if tier == "quick" and files == "mixed" and N > 3:
+            for files in ("none", "passing", "mixed", "explicit"):
+                if tier == "quick" and files in ("mixed", "explicit") and N > 3:
                     continue
                 name = "TestWork"
                 fs = []
@@ -449,6 +449,9 @@ def c09(tier, seed):
                     fs.append({"path": ff_path(name, "c"), "text": failfile_text([], version="v0.0.1")})
                     fs.append({"path": ff_path(name, "d"), "text": failfile_text([])})
                 fl = {"checks": N, "seed": rng.randrange(1, 1 << 64), "shrinktime": "0s"}
+                if files == "explicit":   # -rapid.failfile names one more file: the ones found in the test's directory are still replayed
+                    fs.append({"path": "elsewhere/e.fail", "text": failfile_text([0, 0, 0])})
+                    fl["failfile"] = "elsewhere/e.fail"
                 out.append(scenario("c09-N%d-%s-%s" % (N, pn, files), prop, fl, runs=[{"files": fs}], name=name,
                                     tag={"N": N, "pattern": pn, "files": files}))
                 if files == "none" and pn in ("never", "data", "always", "skip10N-1"):
@@ -774,6 +777,12 @@ def c06(tier, seed):
                 {"stashPrev": True, "flags": {"seed": str(rng.randrange(1, 1 << 64))}},
                 {"failfileRun": 1, "expect": "replay_prev", "expectRun": 1}]
         out.append(scenario("c06-explicit-%d" % i, {"body": body}, {"checks": 100}, runs=runs, name="TestExplicit", tag={"explicit": True}))
+    # the persisted failure is found and replayed also when -rapid.failfile names some other (stale) file
+    for i in range(2 if tier == "quick" else 16):
+        path = "elsewhere/other.fail"
+        runs = [{}, {"files": [{"path": path, "text": failfile_text([0] * 12)}], "flags": {"failfile": path}, "expect": "replay_prev"}]
+        out.append(scenario("c06-found-despite-explicit-%d" % i, {"body": t_threshold("Int64", 1000)}, {"checks": 100, "seed": rng.randrange(1, 1 << 64)},
+                            runs=runs, name="TestFoundDespiteExplicit", tag={"explicit": True, "stale": "passing"}))
     # an explicit -rapid.failfile that does not reproduce anything any more (now passing, other version, garbage, missing): a failure the random
     # search then finds is a new one -- it is saved, and replayed first by the next run without flags
     stale_kinds = {"passing": failfile_text([0] * 12), "otherversion": failfile_text([9, 9], version="v0.0.1"), "garbage": "garbage", "missing": None,
